@@ -507,6 +507,91 @@ theorem lines_eq_whole {alloc : Alloc} {k : ConfId} {nc : Bool} {sh : Shape} {s 
     plainOf (wholeOf '\n' out) = (joinCells '\n' out).map Prod.fst :=
   ⟨cellsOf_wholeOf '\n' out, by rw [plainOf_eq_cells, cellsOf_wholeOf]⟩
 
+private theorem reachable_both {s : State} (h : Reachable s) : Inv cfg s ∧ ResOk s := by
+  obtain ⟨alloc, ops, hal, rfl⟩ := h
+  have hinit : ∃ c, mkConf cfg false [] = .ok c := by
+    have h0 : (match mkConf cfg false [] with | .ok _ => true | .error _ => false) = true := by decide +kernel
+    cases hm : mkConf cfg false [] with
+    | ok c => exact ⟨c, rfl⟩
+    | error e => rw [hm] at h0; cases h0
+  exact run_inv_resOk cfg_ok key_by_object hal ops _ (initState_inv cfg_ok hinit) (initState_resOk cfg)
+
+private theorem lines_of_holder {s s1 : State} {alloc : Alloc} (hal : ValidAlloc alloc) (hinv : Inv cfg s)
+    {p : Addr} {conf : ConfId} {top : ClassId} {nc : Bool} (hho : HolderOk s p conf top nc)
+    {ls : List LLine} {outs : List (List Chunk)} (h : stepLines cfg alloc p top ls s = .ok (s1, outs)) :
+    ∃ pp c', s1.heap.lookup p = some pp ∧ s1.confs.lookup pp.conf = some c' ∧ (nc = false → pp.conf = conf) ∧
+      ((nc = false → c'.closed = true ∧ ∀ l ∈ ls, ∀ ch ∈ l.line.chunks, tagStable cfg ch.tag = true) →
+        outs = ls.map fun l => paintLine (pureColor cfg c' nc) l.line) := by
+  obtain ⟨pp, hp, hcls, hnc, hconf⟩ := hho
+  obtain ⟨hinv1, hfr⟩ := stepLines_spec cfg_ok hal p top ls s s1 outs hinv h
+  have hp1 := hfr.heap p pp hp
+  have hlive := hinv1.live p pp hp1
+  cases hk : s1.confs.lookup pp.conf with
+  | none => simp [hk] at hlive
+  | some c' =>
+    refine ⟨pp, c', hp1, hk, hconf, ?_⟩
+    intro hst
+    apply stepLines_pure cfg_ok key_by_object hal p top (pureColor cfg c' nc) hinv1 ls s s1 outs hinv h (Frame.refl s1)
+    intro l hl ch hch col hcol
+    rw [← hcls] at hcol
+    exact tagColor_pure key_by_object hinv1 hk hp1 hnc (fun _ => rfl) ch.tag
+      (fun hf => ⟨(hst hf).1, (hst hf).2 l hl ch hch⟩) hcol
+
+/-- **A lazy result has no memory either (line iterators).** After any history — whatever was rendered,
+registered, collected or made global between the request `r = obj.ch_text(...)`, `iter(r)` and this `next` —
+the lines an iterator generates now are the object's next lines painted by the pure function of the
+configuration the result was requested for (always without colours; with colours for a configuration that was
+resolved at creation, accessors that do not wait for another palette class). Iterators of the same object do
+not influence each other: the statement is per iterator, for every interleaving. -/
+theorem lazy_lines_history_free {s s' : State} (hs : Reachable s) {alloc : Alloc} (hal : ValidAlloc alloc)
+    {i : IterId} {n : Nat} {outs : List (List Chunk)} (h : nextIter cfg alloc i n s = .ok (s', outs)) :
+    ∃ it pp c', s.iters.lookup i = some it ∧ s'.heap.lookup it.p = some pp ∧ s'.confs.lookup pp.conf = some c' ∧
+      (it.nc = false → pp.conf = it.conf) ∧
+      ((it.nc = false → c'.closed = true ∧ ∀ l ∈ it.rest.take n, ∀ ch ∈ l.line.chunks, tagStable cfg ch.tag = true) →
+        outs = (it.rest.take n).map fun l => paintLine (pureColor cfg c' it.nc) l.line) := by
+  obtain ⟨hinv, hro⟩ := reachable_both hs
+  unfold nextIter at h
+  split at h
+  · cases h
+  · rename_i it hit
+    simp only [bind, Except.bind] at h
+    cases h1 : stepLines cfg alloc it.p it.top (it.rest.take n) s with
+    | error e => simp [h1] at h
+    | ok r1 =>
+      obtain ⟨s1, ls⟩ := r1
+      simp only [h1] at h
+      cases h
+      obtain ⟨pp, c', e1, e2, e3, e4⟩ := lines_of_holder hal hinv (hro.its i it hit) h1
+      exact ⟨it, pp, c', hit, e1, e2, e3, e4⟩
+
+/-- **A lazy result has no memory either (whole text).** The first `str(r)` of a result, whenever it happens,
+is the whole text of the object's lines painted by the pure function of the configuration the result was
+requested for (same conditions as `lazy_lines_history_free`). -/
+theorem lazy_whole_history_free {s s' : State} (hs : Reachable s) {alloc : Alloc} (hal : ValidAlloc alloc)
+    {r : ResId} {w : List Chunk} (h : strRes cfg alloc r s = .ok (s', w)) :
+    ∃ res, s.results.lookup r = some res ∧ (res.memo = none →
+      ∃ pp c', s'.heap.lookup res.p = some pp ∧ s'.confs.lookup pp.conf = some c' ∧
+        (res.nc = false → pp.conf = res.conf) ∧
+        ((res.nc = false → c'.closed = true ∧ ∀ l ∈ res.lines, ∀ ch ∈ l.line.chunks, tagStable cfg ch.tag = true) →
+          w = wholeOf '\n' (res.lines.map fun l => paintLine (pureColor cfg c' res.nc) l.line))) := by
+  obtain ⟨hinv, hro⟩ := reachable_both hs
+  unfold strRes at h
+  split at h
+  · cases h
+  · rename_i res hres
+    refine ⟨res, hres, ?_⟩
+    intro hmemo
+    rw [hmemo] at h
+    simp only [bind, Except.bind] at h
+    cases h1 : stepLines cfg alloc res.p res.top res.lines s with
+    | error e => simp [h1] at h
+    | ok r1 =>
+      obtain ⟨s1, ls⟩ := r1
+      simp only [h1] at h
+      cases h
+      obtain ⟨pp, c', e1, e2, e3, e4⟩ := lines_of_holder hal hinv (hro.res r res hres) h1
+      exact ⟨pp, c', e1, e2, e3, fun hst => by rw [e4 hst]⟩
+
 /-- **The synced `global_palette` has no memory either.** After any history its attributes are the
 colours that the global configuration in force gives to its syntax ids (whatever configurations were
 global before, whatever was registered meanwhile). -/
@@ -576,5 +661,26 @@ example : pureRendering cfg 1 dangling =
 example : pureRendering cfg 1 (step cfg reuseAlloc dangling (.render 1 false sh)) =
     (true, [[⟨"\x1b[32;1m".toList, "|".toList⟩, ⟨[], "one".toList⟩, ⟨"\x1b[32;1m".toList, "|".toList⟩]]) := by
   decide +kernel
+
+/-- **lazy results, interleaved**: a no-colour result and a coloured result of the same table are requested
+under the global configuration `{"TEXT": "RED"}`; then `{"TEXT": "GREEN"}` becomes global; the two iterators
+are advanced alternately. Each gives the lines of its own request (plain / red), whatever the other one and
+the new global configuration do (seeded changes C10-m3 and C10-m4 break exactly this in the real code). -/
+private def lazyLines : List LLine :=
+  [⟨[1, 5, 2], ⟨.made, [⟨.pal 3 1, "+-+".toList⟩]⟩⟩,
+   ⟨[], ⟨.raw, [⟨.pal 3 1, "|".toList⟩, ⟨.enum 0 0 5 4, "one".toList⟩, ⟨.pal 3 1, "|".toList⟩]⟩⟩,
+   ⟨[], ⟨.made, [⟨.pal 3 1, "+-+".toList⟩]⟩⟩]
+
+private def lazyState : State :=
+  run cfg reuseAlloc (initState cfg)
+    [.newEnum 0, .newConf 1 false [("TEXT".toList, plainDescr "31")], .newConf 2 false [("TEXT".toList, plainDescr "32")],
+     .setGlobal 1, .mkRes 0 1 true 3 lazyLines, .mkRes 1 1 false 3 lazyLines, .setGlobal 2,
+     .mkIter 0 0, .mkIter 1 1, .nextIter 0 1, .nextIter 1 1, .render 2 false sh]
+
+example : (match nextIter cfg reuseAlloc 0 5 lazyState with | .ok (_, o) => some o | .error _ => none) =
+    some [[⟨[], "|".toList⟩, ⟨[], "one".toList⟩, ⟨[], "|".toList⟩], [⟨[], "+-+".toList⟩]] := by decide +kernel
+example : (match nextIter cfg reuseAlloc 1 5 lazyState with | .ok (_, o) => some o | .error _ => none) =
+    some [[⟨"\x1b[32m".toList, "|".toList⟩, ⟨"\x1b[31m".toList, "one".toList⟩, ⟨"\x1b[32m".toList, "|".toList⟩],
+          [⟨"\x1b[32m".toList, "+-+".toList⟩]] := by decide +kernel
 
 end C10
